@@ -23,6 +23,7 @@ RULE = ("small emu-mps runs (TDVP / DMRG, 3-4 atoms, shuffled register order, re
         "events of a save, or a torn write; distinct = (case, s, j, variant)")
 ASSUMPTIONS = ["crash = nothing after the raise point executes; the OS is assumed to apply each completed rename/remove atomically and durably",
                "the wall-clock gate of save_simulation is bypassed by the harness (last_save_time=-inf)"]
+UNITS_NAME = "crash_states_explored"
 EXHAUSTIVE_NOTE = "for each selected save, every file-system event boundary (plus torn variants) is enumerated"
 EXHAUSTIVE = False
 
@@ -113,7 +114,7 @@ def check_case(case) -> Result:
                         pass
             if r.violations:
                 break
-        r.info = {"saves": K, "saves_attacked": saves, "crash_states": n_points, "events_of_a_save": info["events_per_save"][1]}
+        r.info = {"saves": K, "saves_attacked": saves, "crash_states": n_points, "units": n_points, "events_of_a_save": info["events_per_save"][1]}
         r.nontrivial = n_between > 0
         r.key = {k: v for k, v in case.items()}
         r.label(f"events_per_save={len(info['events_per_save'][1])}")
